@@ -461,6 +461,9 @@ class Registry:
             c.owner = owner
             c.raw = obj
             self.by_func[f] = c
+            if c.returns is None and not c.inline and _returns_a_value(f):
+                self.missing.append((q, 'contract gives no `returns` shape although the function returns a value '
+                                        '(give returns=... or inline=True)'))
         self.loops_by_code = {}
         for (q, ordinal), ls in self.loops.items():
             try:
@@ -571,6 +574,24 @@ class Registry:
         return verify.apply_contract(interp, c, func, args, kwargs)
 
 
+def _returns_a_value(f):
+    import ast as _ast
+    try:
+        info = frontend.funcinfo_of(f)
+    except Exception:
+        return False
+    if isinstance(info.node, _ast.Lambda):
+        return True
+    if info.is_generator:
+        return True
+    from .loops import _walk_own
+    for n in _walk_own(info.node):
+        if isinstance(n, _ast.Return) and n.value is not None and not (
+                isinstance(n.value, _ast.Constant) and n.value.value is None):
+            return True
+    return False
+
+
 class OpaqueMethod:
     def __init__(self, o, name, m):
         self.o = o
@@ -633,7 +654,7 @@ class Contract:
     def __init__(self, qname, params=None, ghosts=None, requires=None, returns=None, ensures=None,
                  raises=None, may_raise=(), raises_only=None, modifies=None, props=(), setup=None,
                  old=None, pure_result=False, notes='', concretize=None, replay=None, trusted=False,
-                 cover=True, inline=False):
+                 cover=True, inline=False, event=None):
         self.qname = qname
         self.params = params or {}
         self.ghosts = ghosts or {}
@@ -651,6 +672,7 @@ class Contract:
         self.replay = replay
         self.trusted = trusted              # True: assumed contract (not verified); listed in evidence
         self.cover = cover
+        self.event = event                  # ghost event emitted at call sites that use the contract
         self.inline = inline                # verified, but call sites interpret the body (tiny helpers)
         self.func = None
         self.owner = None
